@@ -15,13 +15,16 @@ var heapKinds = []string{"binaryheap", "priorityqueue"}
 var heapNames = map[string]string{"binaryheap": "BinaryHeap", "priorityqueue": "PriorityQueue"}
 
 type heapSubj[T comparable] struct {
-	cfg  Cfg
-	d    *Dom[T]
-	c    sqReal[T]
-	push func(...T)
-	pop  func() (T, bool)
-	m    []T // multiset of members (full identity)
+	cfg      Cfg
+	d        *Dom[T]
+	c        sqReal[T]
+	push     func(...T)
+	pop      func() (T, bool)
+	m        []T // multiset of members (full identity)
+	scribble bool
 }
+
+func (s *heapSubj[T]) SetScribble(b bool) { s.scribble = b }
 
 func newHeapSubj[T comparable](cfg Cfg, d *Dom[T]) *heapSubj[T] {
 	s := &heapSubj[T]{cfg: cfg, d: d}
@@ -49,7 +52,11 @@ func (s *heapSubj[T]) Config() Cfg    { return s.cfg }
 func (s *heapSubj[T]) Real() any      { return s.c }
 func (s *heapSubj[T]) IO() jsonIO     { return s.c.(jsonIO) }
 func (s *heapSubj[T]) ModelSize() int { return len(s.m) }
-func (s *heapSubj[T]) Fresh() Subject { return newHeapSubj(s.cfg, s.d) }
+func (s *heapSubj[T]) Fresh() Subject {
+	n := newHeapSubj(s.cfg, s.d)
+	n.scribble = s.scribble
+	return n
+}
 
 func (s *heapSubj[T]) vals(idx []int) []T {
 	out := make([]T, len(idx), len(idx)+3)
@@ -140,7 +147,15 @@ func (s *heapSubj[T]) Step(op Op, o *Oracle) {
 	o.Kind = s.cfg.Kind
 	switch op.N {
 	case "Push":
-		s.push(s.vals(op.A)...)
+		vs := s.vals(op.A)
+		s.push(vs...)
+		if s.scribble { // C16: the caller overwrites the slice it passed
+			for i := range vs {
+				vs[i] = s.d.Probes[0]
+			}
+			vs = append(vs, s.d.Probes[0])
+			_ = vs
+		}
 		s.m = append(slices.Clone(s.m), s.vals(op.A)...)
 	case "Pop", "Peek":
 		var v T
